@@ -38,10 +38,14 @@ func init() {
 			{Name: "mutate", Run: runMutate},
 			{Name: "revive", Run: runRevive},
 			{Name: "revive-mut", Run: runReviveMut},
+			{Name: "revive-cyclic", Run: runReviveCyclic},
+			{Name: "revive-cyclic-child", Run: runReviveCyclicChild, Solo: true},
 			{Name: "stringify-mut", Run: runStringifyMut},
 			{Name: "special", Run: runSpecial},
 			{Name: "cycles", Run: runCycles},
 			{Name: "sharing", Run: runSharing},
+			{Name: "wrappers", Run: runWrappers},
+			{Name: "env", Run: runEnv},
 			{Name: "roundtrip", Run: runRoundtrip},
 			{Name: "ptext", Run: runPText},
 			{Name: "stringify", Run: runStringify},
@@ -70,7 +74,7 @@ func dump(m engine.Mismatch) {
 	if err != nil {
 		return
 	}
-	fmt.Fprintf(f, "%s\t%s\t%v\tEXP %s\tOBS %s\n", m.Family, m.Key, m.Input, m.Expected, m.Observed)
+	fmt.Fprintf(f, "%s\t%s\t%v\tEXP %s\tOBS %s\tBY %s\n", m.Family, m.Key, m.Input, m.Expected, m.Observed, m.Aux["explained_by"])
 	f.Close()
 }
 
